@@ -17,7 +17,9 @@ namespace SJ.Proofs.NumLinkParser
 open SJ SJ.Gen SJ.Model.Machine SJ.Model.Num SJ.Proofs.Machine SJ.Proofs.CanonM SJ.Proofs.Complete
 open SJ.Spec.Grammar (CST NumParts isInt isFrac isExp JsonText Derives Ws)
 open SJ.Spec.Canon (partsOf numOf)
-open SJ.Proofs.NumLink (PartsWF toNumLit)
+open SJ.Proofs.NumLink (PartsWF toNumLit numOfLit numOfNRes)
+open SJ.Spec.Decimal (NumLit scale10)
+open SJ.Spec.Ieee (Overflows64)
 
 /-! ## the scanner's parts are well-formed -/
 
@@ -231,5 +233,88 @@ theorem parseTop_num_err (env : Env) (henv : env.tgt = .value) (hap : env.cfg.ap
     rw [show init = ⟨.val .top, []⟩ from rfl, hf.to_run 0,
       finish_num_err env henv [] n hgood (numValue_err env hap n p hparts hx)]
     simp
+
+/-! ## the default configuration: the parser is (B) -/
+
+/-- a grammar-level literal as the C08 development reads it: sign, integer digits, fraction digits
+    (without the point), exponent sign and digits (without the `e`/`E` and an optional `+`) -/
+def litOf (p : NumParts) : NumLit := toNumLit (partsOf p)
+
+theorem litOf_wf (p : NumParts) (hwf : p.WF = true) : (litOf p).WF = true :=
+  NumLink.toNumLit_wf _ (partsOf_wf p hwf)
+
+theorem litOf_neg (p : NumParts) : (litOf p).neg = p.minus := rfl
+theorem litOf_int (p : NumParts) : (litOf p).intDigits = p.int := rfl
+theorem litOf_frac (p : NumParts) : (litOf p).fracDigits = p.frac.drop 1 := fracOf_getD p.frac
+
+/-- without `float_roundtrip` and `arbitrary_precision`, the denotation's number is (B)'s -/
+theorem numOf_eq_numOfLit (cfg : Spec.Canon.Cfg) (hfr : cfg.fr = false) (hap : cfg.ap = false)
+    (p : NumParts) (hwf : p.WF = true) : numOf cfg p = numOfLit (litOf p) := by
+  unfold litOf
+  rw [← NumLink.numOfNRes_convertDefault _ (partsOf_wf p hwf)]
+  unfold numOf Spec.Canon.convert
+  simp only [hap, hfr, Bool.false_eq_true, if_false]
+  cases convertDefault (partsOf p) <;> rfl
+
+/-- **the parser model on a number literal, default configuration** -/
+theorem parseTop_default (env : Env) (henv : env.tgt = .value) (hfr : env.cfg.fr = false)
+    (hap : env.cfg.ap = false) (p : NumParts) (hwf : p.WF = true) :
+    (∀ x, numOfLit (litOf p) = some x → parseTop env p.bytes = .ok (.num x)) ∧
+    (numOfLit (litOf p) = none →
+      ∃ idx, idx ≤ p.bytes.length ∧ parseTop env p.bytes = .err .NumberOutOfRange idx) := by
+  have hn := numOf_eq_numOfLit (specCfg env.cfg) hfr hap p hwf
+  constructor
+  · intro x hx
+    exact parseTop_num_ok env henv p hwf x (by rw [hn]; exact hx)
+  · intro hx
+    exact parseTop_num_err env henv hap p hwf (by rw [hn]; exact hx)
+
+/-- a successful parse of the literal is the predicted number -/
+theorem parseTop_default_ok (env : Env) (henv : env.tgt = .value) (hfr : env.cfg.fr = false)
+    (hap : env.cfg.ap = false) (p : NumParts) (hwf : p.WF = true) (v : JV)
+    (h : parseTop env p.bytes = .ok v) : ∃ x, numOfLit (litOf p) = some x ∧ v = .num x := by
+  obtain ⟨h1, h2⟩ := parseTop_default env henv hfr hap p hwf
+  cases hx : numOfLit (litOf p) with
+  | none =>
+    obtain ⟨idx, _, he⟩ := h2 hx
+    rw [he] at h; cases h
+  | some x =>
+    rw [h1 x hx] at h
+    cases h
+    exact ⟨x, rfl, rfl⟩
+
+/-- a rejected literal is one (B) rejects -/
+theorem parseTop_default_err (env : Env) (henv : env.tgt = .value) (hfr : env.cfg.fr = false)
+    (hap : env.cfg.ap = false) (p : NumParts) (hwf : p.WF = true) (c : Code) (idx : Nat)
+    (h : parseTop env p.bytes = .err c idx) :
+    numOfLit (litOf p) = none ∧ c = .NumberOutOfRange := by
+  obtain ⟨h1, h2⟩ := parseTop_default env henv hfr hap p hwf
+  cases hx : numOfLit (litOf p) with
+  | none =>
+    obtain ⟨idx', _, he⟩ := h2 hx
+    rw [he] at h; cases h
+    exact ⟨rfl, rfl⟩
+  | some x => rw [h1 x hx] at h; cases h
+
+/-- on the short domain the exact value is far from the overflow threshold -/
+theorem exact_short_not_overflow (l : NumLit) (hD : l.sigVal < 10 ^ 15) (h2 : l.netExp ≤ 22) :
+    ¬ Overflows64 l.exact.1 l.exact.2 := by
+  unfold NumLit.exact scale10
+  apply SJ.Proofs.Ieee.not_overflows64_of_lt
+  split
+  · rename_i hpos
+    simp only
+    have hk : l.netExp.toNat ≤ 22 := by omega
+    have h1 : 10 ^ l.netExp.toNat ≤ 10 ^ 22 := Nat.pow_le_pow_right (by decide) hk
+    have h10 : 0 < 10 ^ l.netExp.toNat := Nat.pos_of_ne_zero (by simp)
+    have h3 : l.sigVal * 10 ^ l.netExp.toNat < 10 ^ 15 * 10 ^ 22 :=
+      Nat.lt_of_lt_of_le (Nat.mul_lt_mul_of_pos_right hD h10) (Nat.mul_le_mul_left _ h1)
+    have h4 : 10 ^ 15 * 10 ^ 22 ≤ 2 ^ 1023 * 1 := by decide +kernel
+    omega
+  · simp only
+    have h10 : 0 < 10 ^ (-l.netExp).toNat := Nat.pos_of_ne_zero (by simp)
+    have h3 : (10 : Nat) ^ 15 ≤ 2 ^ 1023 := by decide +kernel
+    have : 2 ^ 1023 * 1 ≤ 2 ^ 1023 * 10 ^ (-l.netExp).toNat := Nat.mul_le_mul_left _ h10
+    omega
 
 end SJ.Proofs.NumLinkParser
